@@ -33,30 +33,48 @@ Record robs := mkRObs { ro_status : int; ro_stats : list int; ro_acked : list re
    in time order, exemplars (labels, t, v) oldest first *)
 Definition rseries := (rlabels * list (int * int * int) * list (rlabels * int * int))%type.
 Record hobs := mkHObs { ho_status : int; ho_stats : list int; ho_series : list rseries }.
+(* a native histogram as printed by the harness: every 64-bit quantity as (high, low) 32-bit halves *)
+Definition w64 := (int * int)%type.
+Record rgh := mkRG { rg_float : bool; rg_hint : int; rg_schema : w64; rg_zt : w64; rg_zc : w64;
+                     rg_count : w64; rg_sum : w64; rg_ps : list (w64 * int); rg_pb : list w64;
+                     rg_ns : list (w64 * int); rg_nb : list w64; rg_cv : list w64 }.
 Inductive case :=
 | RCRec (id : int) (strs : list (list int)) (maxT : int) (script : list int) (commit_ok : bool)
         (r : rreq) (o : robs)
 | RCHead (id : int) (strs : list (list int)) (maxT : int) (exon : bool) (cr : int)
          (steps : list (rreq * hobs))
-| RCSym (id : int) (strs : list (list int)) (lss : list rlabels) (tbl : list int) (refs : list (list int)).
+| RCSym (id : int) (strs : list (list int)) (lss : list rlabels) (tbl : list int) (refs : list (list int))
+| RCHist (id : int) (v2 : bool) (ts st : int * int) (h : option rgh) (isf : bool)
+         (oi ofl : option rgh) (ts' st' : int * int)
+         (vals : list ((int * int) * (int * int))).   (* sample / exemplar values sent and received (bits) *)
 Definition c_id (c : case) : Z :=
-  match c with RCRec id _ _ _ _ _ _ => z id | RCHead id _ _ _ _ _ => z id | RCSym id _ _ _ _ => z id end.
+  match c with RCRec id _ _ _ _ _ _ => z id | RCHead id _ _ _ _ _ => z id | RCSym id _ _ _ _ => z id
+  | RCHist id _ _ _ _ _ _ _ _ _ _ => z id end.
+
+Definition u64 (p : w64) : Z := z (fst p) * 4294967296 + z (snd p).
+Definition s64 (p : w64) : Z := let u := u64 p in if 9223372036854775808 <=? u then u - 18446744073709551616 else u.
+Definition gspans (l : list (w64 * int)) : list (Z * Z) := map (fun x => (s64 (fst x), z (snd x))) l.
+Definition ggh (r : rgh) : ghist :=
+  let b := if rg_float r then u64 else s64 in
+  mkGH (rg_float r) (z (rg_hint r)) (s64 (rg_schema r)) (u64 (rg_zt r)) (u64 (rg_zc r)) (u64 (rg_count r))
+       (u64 (rg_sum r)) (gspans (rg_ps r)) (map b (rg_pb r)) (gspans (rg_ns r)) (map b (rg_nb r))
+       (map u64 (rg_cv r)).
 
 (* ---------- decoding into model terms ---------- *)
 Definition gstr (T : list str) (i : int) : str := nth (n i) T [].
 Definition glabels (T : list str) (l : rlabels) : labels := map (fun p => (gstr T (fst p), gstr T (snd p))) l.
 Definition ghistc (c : Z) : hist := mkH (Z.odd (c / 2)) (c / 4) (Z.odd c).
 Definition gsample (p : int * int) : Z * Z := (z (fst p), z (snd p)).
-Definition ghist (p : int * int) : Z * hist := (z (fst p), ghistc (z (snd p))).
+Definition ghs (p : int * int) : Z * hist := (z (fst p), ghistc (z (snd p))).
 Definition gts1 (T : list str) (t : rts) : ts1 :=
   match t with
-  | RT1 l ss hs es => mkTS1 (glabels T l) (map gsample ss) (map ghist hs)
+  | RT1 l ss hs es => mkTS1 (glabels T l) (map gsample ss) (map ghs hs)
                             (map (fun e => mkE1 (glabels T (fst (fst e))) (z (snd (fst e))) (z (snd e))) es)
   | RT2 _ _ _ _ _ _ => mkTS1 [] [] [] []
   end.
 Definition gts2 (t : rts) : ts2 :=
   match t with
-  | RT2 refs help unit ss hs es => mkTS2 (map n refs) (n help) (n unit) (map gsample ss) (map ghist hs)
+  | RT2 refs help unit ss hs es => mkTS2 (map n refs) (n help) (n unit) (map gsample ss) (map ghs hs)
                             (map (fun e => mkE2 (map n (fst (fst e))) (z (snd (fst e))) (z (snd e))) es)
   | RT1 _ _ _ _ => mkTS2 [] 0 0 [] [] []
   end.
@@ -112,6 +130,16 @@ Definition mseries_eqb (a b : mseries) : bool :=
   labels_eqb (ms_labels a) (ms_labels b) && list_eqb sample_eqb (ms_samples a) (ms_samples b)
   && list_eqb ex_eqb (ms_exs a) (ms_exs b).
 
+Definition zz_eqb (a b : Z * Z) : bool := (fst a =? fst b) && (snd a =? snd b).
+Definition ghist_eqb (a b : ghist) : bool :=
+  Bool.eqb (g_float a) (g_float b) && (g_hint a =? g_hint b) && (g_schema a =? g_schema b)
+  && (g_zt a =? g_zt b) && (g_zc a =? g_zc b) && (g_count a =? g_count b) && (g_sum a =? g_sum b)
+  && list_eqb zz_eqb (g_pspans a) (g_pspans b) && list_eqb Z.eqb (g_pb a) (g_pb b)
+  && list_eqb zz_eqb (g_nspans a) (g_nspans b) && list_eqb Z.eqb (g_nb a) (g_nb b)
+  && list_eqb Z.eqb (g_custom a) (g_custom b).
+Definition oghist_eqb (a b : option ghist) : bool :=
+  match a, b with Some x, Some y => ghist_eqb x y | None, None => true | _, _ => false end.
+
 (* the model head as a snapshot comparable with the observed one: series that have data,
    samples and exemplars oldest first *)
 Definition model_snap (h : head) : list mseries :=
@@ -149,6 +177,17 @@ Definition agree (c : case) : bool :=
     let T := map (map z) strs in
     let '(t, rs) := symbolize_all new_table (map (glabels T) lss) in
     list_eqb str_eqb t (map (gstr T) tbl) && list_eqb (list_eqb Nat.eqb) rs (map (map n) refs)
+  | RCHist _ v2 ts st h isf oi ofl ts' st' vals =>
+    forallb (fun x => wire_f (u64 (fst x)) =? u64 (snd x)) vals &&
+    match h with
+    | None => false
+    | Some r =>
+      let g := ggh r in
+      let p := transmit (if g_float g then from_float (s64 st) (s64 ts) g else from_int (s64 st) (s64 ts) g) in
+      Bool.eqb (is_float_hist p) isf && oghist_eqb (to_int p) (option_map ggh oi)
+      && oghist_eqb (Some (to_float p)) (option_map ggh ofl)
+      && (p_ts p =? s64 ts') && (p_st p =? s64 st')
+    end
   end.
 
 (* ---------- holds: the property on the implementation's own output ---------- *)
@@ -308,6 +347,26 @@ Definition holds (c : case) : bool :=
     forallb (fun p => match desymbolize (map n (snd p)) (map (gstr T) tbl) with
                       | Some ls => labels_eqb ls (glabels T (fst p))
                       | None => false end) (combine lss refs)
+  | RCHist _ v2 ts st h isf oi ofl ts' st' vals =>
+    forallb (fun x => u64 (fst x) =? u64 (snd x)) vals &&
+    (* every field of the histogram, its kind and its timestamps survive encode + decode; the
+       float view of an integer histogram keeps everything but the counts' representation *)
+    match h with
+    | None => false
+    | Some r =>
+      let g := ggh r in
+      (s64 ts =? s64 ts') && (s64 st =? s64 st') && Bool.eqb isf (g_float g)
+      && (if g_float g then oghist_eqb (option_map ggh ofl) (Some g) && oghist_eqb (option_map ggh oi) None
+          else oghist_eqb (option_map ggh oi) (Some g)
+               && match option_map ggh ofl with
+                  | Some f => g_float f && (g_hint f =? g_hint g) && (g_schema f =? g_schema g)
+                      && (g_zt f =? g_zt g) && (g_sum f =? g_sum g)
+                      && list_eqb zz_eqb (g_pspans f) (g_pspans g) && list_eqb zz_eqb (g_nspans f) (g_nspans g)
+                      && list_eqb Z.eqb (g_custom f) (g_custom g)
+                      && (length (g_pb f) =? length (g_pb g))%nat && (length (g_nb f) =? length (g_nb g))%nat
+                  | None => false
+                  end)
+    end
   end.
 
 Definition mismatches (cs : list case) : list Z := map c_id (filter (fun c => negb (agree c)) cs).
